@@ -43,6 +43,15 @@ impl Fold<TextRange> for Erase {
         if self.in_field > 0 {
             self.string_in_field = true;
         }
+        if self.in_spec > 0 {
+            // listed finding C07-F2 (seen from C11): a self-documenting field inside a nested format spec leaves text pieces
+            // that are not merged (or empty) in the parsed tree; rendering and parsing again merges them
+            let consts: Vec<bool> = node.values.iter().map(|v| matches!(v, ast::Expr::Constant(_))).collect();
+            let empty = node.values.iter().any(|v| matches!(v, ast::Expr::Constant(c) if matches!(&c.value, Constant::Str(s) if s.is_empty())));
+            if empty || consts.windows(2).any(|w| w[0] && w[1]) {
+                self.string_in_field = true; // (same flag: the input lies in a listed finding's region)
+            }
+        }
         ast::fold::fold_expr_joined_str(self, node)
     }
     fn fold_expr_formatted_value(&mut self, node: ast::ExprFormattedValue<TextRange>) -> Result<ast::ExprFormattedValue<()>, Self::Error> {
